@@ -37,6 +37,7 @@ import (
 	"github.com/risor-io/risor"
 	"github.com/risor-io/risor/compiler"
 	"github.com/risor-io/risor/object"
+	ros "github.com/risor-io/risor/os"
 	"github.com/risor-io/risor/parser"
 	"github.com/risor-io/risor/vm"
 )
@@ -551,6 +552,21 @@ type c11Opt struct {
 	name   string
 	val    object.Object
 	plural bool // spelled with the plural form (WithGlobals{…} / WithoutGlobals(…)); adjacent plural options of one kind share one call
+	// kind 'f': an option that does not speak about globals (Risor.C11.XOpt.flag): it writes the
+	// Config field number flag — 0 WithConcurrency, 1 WithFilename, 2 WithOS
+	flag int
+}
+
+var c11FlagNames = []string{"WithConcurrency", "WithFilename", "WithOS"}
+
+func c11FlagOption(k int) risor.Option {
+	switch k {
+	case 0:
+		return risor.WithConcurrency()
+	case 1:
+		return risor.WithFilename("c11.risor")
+	}
+	return risor.WithOS(ros.NewSimpleOS(context.Background()))
 }
 
 func (o c11Opt) text() string {
@@ -565,6 +581,8 @@ func (o c11Opt) text() string {
 		return fmt.Sprintf("WithoutGlobal%s(%s)", p, o.name)
 	case 'o':
 		return fmt.Sprintf("WithGlobalOverride(%s:=%s)", o.name, o.val.Type())
+	case 'f':
+		return c11FlagNames[o.flag] + "()"
 	}
 	return "WithoutDefaultGlobals"
 }
@@ -621,6 +639,9 @@ func c11SeqOptions(seq []c11Opt) []risor.Option {
 		case 'o':
 			flush()
 			opts = append(opts, risor.WithGlobalOverride(o.name, o.val))
+		case 'f':
+			flush()
+			opts = append(opts, c11FlagOption(o.flag))
 		default:
 			flush()
 			opts = append(opts, risor.WithoutDefaultGlobals())
@@ -645,6 +666,8 @@ func c11SeqEncode(seq []c11Opt, ids *c11Ids) string {
 			parts[i] = string(o.kind) + ";" + c11Name(o.name) + ";" + strconv.Itoa(id)
 		case 'd':
 			parts[i] = "d;" + c11Name(o.name)
+		case 'f':
+			parts[i] = "f;" + strconv.Itoa(o.flag)
 		default:
 			parts[i] = "n"
 		}
@@ -2247,7 +2270,7 @@ func (r *c11Run) seqSpec(c *c11Case, key string, real map[string]any, realG map[
 	seen := map[string]bool{}
 	var names []string
 	for _, o := range c.seq {
-		if o.kind != 'n' && !strings.Contains(o.name, ".") && !seen[o.name] {
+		if o.kind != 'n' && o.kind != 'f' && !strings.Contains(o.name, ".") && !seen[o.name] {
 			seen[o.name] = true
 			names = append(names, o.name)
 		}
@@ -2869,8 +2892,75 @@ func (r *c11Run) runSequences(rng *RNG, topNames, memberNames []string) {
 			}
 		}
 		seq := c11GenSeq(rng, pool, 2+rng.Intn(6), true)
+		if rng.Chance(30) { // … mixed with options that do not speak about globals, anywhere
+			for j := 0; j < 1+rng.Intn(2); j++ {
+				seq = c11InsertFlag(rng, seq, rng.Intn(len(c11FlagNames)))
+			}
+			r.runCase(&c11Case{seq: seq, kind: "option sequence: random, mixed with other options", later: rng.Intn(2)}, rng.Fork())
+			continue
+		}
 		r.runCase(&c11Case{seq: seq, kind: "option sequence: random", later: rng.Intn(2)}, rng.Fork())
 	}
+	// d. options that do not speak about globals (Risor.C11.XOpt.flag: WithConcurrency,
+	// WithFilename, WithOS) combined with removals: the configuration must be the one the
+	// global-related options alone give (xoptseq_flags_irrelevant, xoptseq_denied_stays_denied)
+	all := append([]string{}, topNames...)
+	sort.Strings(all)
+	// d3. one other option and one removed / overridden / re-supplied top-level default name: every
+	// name with a random option (thorough: with every option)
+	for _, n := range all {
+		for k := range c11FlagNames {
+			if e.Quick && k != rng.Intn(len(c11FlagNames)) && !rng.Chance(15) {
+				continue
+			}
+			w := "D"
+			switch rng.Intn(6) {
+			case 0:
+				w = "DG"
+			case 1:
+				w = "GD"
+			case 2:
+				w = "O"
+			}
+			seq := c11InsertFlag(rng, c11Word(rng, w, n), k)
+			r.runCase(&c11Case{seq: seq, kind: "one other option + word on one top-level default name", later: rng.Intn(2)}, rng.Fork())
+		}
+	}
+	flagSets := [][]int{{0}, {1}, {2}, {0, 1, 2}}
+	for _, fs := range flagSets {
+		// d1. every top-level default name removed in one configuration, the other options before / after
+		for _, after := range []bool{false, true} {
+			var seq []c11Opt
+			for _, n := range all {
+				seq = append(seq, c11Opt{kind: 'd', name: n, plural: true})
+			}
+			for _, k := range fs {
+				if after {
+					seq = append(seq, c11Opt{kind: 'f', flag: k})
+				} else {
+					seq = append([]c11Opt{{kind: 'f', flag: k}}, seq...)
+				}
+			}
+			r.runCase(&c11Case{seq: seq, kind: "other options + removal of every top-level default"}, rng.Fork())
+		}
+		// d2. WithoutDefaultGlobals (+ one host global) and the other options
+		seq := []c11Opt{{kind: 'n'}}
+		if rng.Bool() {
+			seq = append(seq, c11Opt{kind: 'g', name: "zz_host", val: c11OvValue(rng, 0)})
+		}
+		for _, k := range fs {
+			seq = c11InsertFlag(rng, seq, k)
+		}
+		r.runCase(&c11Case{seq: seq, kind: "other options + WithoutDefaultGlobals"}, rng.Fork())
+	}
+}
+
+// c11InsertFlag puts the other option number k at a random position of the sequence.
+func c11InsertFlag(rng *RNG, seq []c11Opt, k int) []c11Opt {
+	at := rng.Intn(len(seq) + 1)
+	out := append([]c11Opt{}, seq[:at]...)
+	out = append(out, c11Opt{kind: 'f', flag: k})
+	return append(out, seq[at:]...)
 }
 
 func (r *c11Run) runReuses(rng *RNG, topNames, memberNames []string) {
